@@ -28,8 +28,8 @@ ENUM = {
 }
 POOL = 12
 CHUNK = 4000
-RULE = ("enc: every (injective vocabulary of <= 3 of 5 (quick) / 6 (thorough) tags over terms sharing a name or a label, tag list of <= 3 with "
-        "repeats and outsiders, two quarter-score patterns) of the TLA+ enumeration, plus random vocabularies of <= 8 of 12 "
+RULE = ("enc: every (injective vocabulary of <= 3 of 5 (quick) / 6 (thorough) tags over terms sharing a name or a label, plus tags on terms sharing a URI under different names / a name under different URIs, tag list of <= 3 with "
+        "repeats and outsiders, two quarter-score patterns) of the TLA+ enumeration, plus random vocabularies of <= 8 of 15 "
         "tags with lists of <= 8; pair: every ordered pair of freshly built objects of the eight hashable classes over two- to "
         "four-value field domains, plus model-equal (quick) / at most one field apart (thorough) pairs whose members were "
         "derived from an already hashed object by model_copy(update), attribute assignment, deep copy or a dump/validate "
@@ -47,9 +47,13 @@ _TERMS = [
     dict(name="n1", label="l2", definition="d"),       # T1'  same name, other label
     dict(name="n2", label="l1", definition="d"),       # T1'' same label, other name
     dict(name="n3", label="l3", definition="d"),       # T2
+    dict(name="n4", label="l4", definition="d", uri="u1"),   # T5
+    dict(name="n5", label="l4", definition="d", uri="u1"),   # T6  T5's URI under another name
+    dict(name="n4", label="l4", definition="d", uri="u2"),   # T7  T5's name and label under another URI
 ]
 _VALUES = ["a", "b", "c"]
-_UTAG = [(1, 1), (1, 2), (2, 1), (3, 1), (4, 1), (4, 2), (2, 2), (3, 2), (1, 3), (2, 3), (3, 3), (4, 3)]
+_UTAG = [(1, 1), (1, 2), (2, 1), (3, 1), (4, 1), (4, 2), (2, 2), (3, 2), (1, 3), (2, 3), (3, 3), (4, 3),
+         (5, 1), (6, 1), (7, 1)]
 
 
 _WRITE = {"explicit": False}      # how objects are written down while _written(True) is active
@@ -93,7 +97,8 @@ def _which(tag):
         return 0
     for u, (t, v) in enumerate(_UTAG, start=1):
         d = _TERMS[t - 1]
-        if tag.value == _VALUES[v - 1] and tag.term.name == d["name"] and tag.term.label == d["label"]:
+        if (tag.value == _VALUES[v - 1] and tag.term.name == d["name"] and tag.term.label == d["label"]
+                and tag.term.uri == d.get("uri")):
             return u
     return 0
 
@@ -119,10 +124,14 @@ def _enc(case):
     enc = [_opt(encoder.encode(_tag(u, q))) for u in range(1, len(_UTAG) + 1)]
     dec = [_which(encoder.decode(k)) for k in range(len(vocab))]
     encdec = [_opt(encoder.encode(encoder.decode(k))) for k in range(len(vocab))]
+    # observed equality of every universe tag (written as a query) with every vocabulary tag, and inside the vocabulary
+    vtags = [_tag(u, vp) for u in vocab]
+    qeq = [[bool(_tag(u, q) == vt) for vt in vtags] for u in range(1, len(_UTAG) + 1)]
+    veq = [[bool(a == b) for b in vtags] for a in vtags]
     cls, multi, pred = _three(encoder, tags, scs, q)
     # the same list without its out-of-vocabulary members: given by the case, checked by the specification
     f_cls, f_multi, f_pred = _three(encoder, case["ftags"], case["fscs"], q)
-    return {"num": int(encoder.num_classes), "enc": enc, "dec": dec, "encdec": encdec,
+    return {"num": int(encoder.num_classes), "enc": enc, "dec": dec, "encdec": encdec, "qeq": qeq, "veq": veq,
             "cls": cls, "multi": multi, "pred": pred, "f_cls": f_cls, "f_multi": f_multi, "f_pred": f_pred}
 
 
@@ -152,7 +161,8 @@ _FEAT = lambda: data.Feature(term=_term(1), value=1.5)
 _PTAG = lambda: data.PredictedTag(tag=_tag(1), score=0.5)
 FIELDS = {
     1: (data.Term, [("name", lambda k: ["n1", "n2"][k - 1]), ("label", lambda k: ["l1", "l2"][k - 1]),
-                    ("definition", lambda k: ["d1", "d2"][k - 1]), ("extra_note", lambda k: None if k == 1 else "e")], {}),
+                    ("definition", lambda k: ["d1", "d2"][k - 1]), ("extra_note", lambda k: None if k == 1 else "e"),
+                    ("uri", lambda k: [None, "u1", "u2"][k - 1]), ("comment", lambda k: None if k == 1 else "c")], {}),
     2: (data.Tag, [("term", _term), ("value", lambda k: _VALUES[k - 1])], {}),
     3: (data.Feature, [("term", _term), ("value", lambda k: [0.0, -0.0, 0.5][k - 1])], {}),
     4: (data.Note, [("uuid", lambda k: _U[k - 1]), ("message", lambda k: ["m1", "m2"][k - 1]),
@@ -169,7 +179,7 @@ FIELDS = {
                               ("tags", lambda k: [] if k == 1 else [_PTAG()]),
                               ("features", lambda k: [] if k == 1 else [_FEAT()])], {}),
 }
-_DOM = {1: [2, 2, 2, 2], 2: [4, 2], 3: [4, 3], 4: [2, 2, 2, 2], 5: [2, 2, 2, 2], 6: [2, 2, 2, 2], 7: [2, 2, 2, 2], 8: [2, 2, 2, 2]}
+_DOM = {1: [2, 2, 2, 2, 3, 2], 2: [7, 2], 3: [7, 3], 4: [2, 2, 2, 2], 5: [2, 2, 2, 2], 6: [2, 2, 2, 2], 7: [2, 2, 2, 2], 8: [2, 2, 2, 2]}
 
 
 def _build(cls, x):
@@ -177,7 +187,7 @@ def _build(cls, x):
     kw = dict(fixed)
     for (name, mk), k in zip(fields, x):
         v = mk(k)
-        if not (cls == 1 and name == "extra_note" and v is None):      # Term's extra attribute: present or not
+        if not (cls == 1 and v is None):      # Term: the extra attribute / uri / comment are simply left out when absent
             kw[name] = v
     return _make(model, **kw)
 
@@ -231,13 +241,13 @@ def execute(case):
 
 
 def random_cases(rng, tier):
-    """Larger vocabularies (<= 8 of all 12 universe tags) and longer lists (<= 8) than TLC enumerates."""
+    """Larger vocabularies (<= 8 of all 15 universe tags) and longer lists (<= 8) than TLC enumerates."""
     n = 1500 if tier == "quick" else 15000
     for _ in range(n):
         nv = rng.randrange(0, 9)
-        vocab = rng.sample(range(1, 13), nv)
+        vocab = rng.sample(range(1, 16), nv)
         lt = rng.randrange(0, 9)
-        pool = vocab if (vocab and rng.random() < 0.3) else list(range(1, 13))
+        pool = vocab if (vocab and rng.random() < 0.3) else list(range(1, 16))
         tags = [rng.choice(pool) for _ in range(lt)]
         if tags and rng.random() < 0.5:           # force repeats
             tags[rng.randrange(lt)] = tags[0]
@@ -266,7 +276,7 @@ MANIFEST = {
              "(constructor; hashed donor then model_copy(update) / attribute assignment; hashed then deep copy / dump-validate "
              "round trip; constructor with every optional field passed explicitly), and vocabulary / query tags of the encoders "
              "written differently, so a hash that remembers a derivation or sees which fields were set is refuted (controls "
-             "history/MC_Encoding_hash_memo, _hash_fields_set) -- plus random vocabularies of <= 8 of 12 tags "
+             "history/MC_Encoding_hash_memo, _hash_fields_set) -- plus random vocabularies of <= 8 of 15 tags "
              "with lists of <= 8, and TLC validates the observations clause by clause."),
     "note": ("trusted: TLC, binder checks/c19.py (encoder; objects rebuilt for every use so identity cannot help); the hash "
              "clause is the contract, not the projection: different but sound hashes pass (mutants/C19/must_pass)"),
